@@ -2338,6 +2338,10 @@ def _norm_ws(s_):
 
 STD_LINE_SPLITTERS = ("lines", "split_inclusive", "split_terminator", "split", "rsplit", "split_once", "lines_with_terminator",
                       "splitn")
+# segmenters that skip part of the text (whitespace, punctuation, terminators): their pieces do not cover the input
+SKIPPING_SEGMENTERS = ("words", "word_indices", "unicode_words", "unicode_word_indices", "split_whitespace",
+                       "split_ascii_whitespace", "fields", "fields_with", "lines", "trim", "trim_start", "trim_end",
+                       "sentences", "unicode_sentences")
 
 
 def rule_F21(prog):
@@ -2356,6 +2360,21 @@ def rule_F21(prog):
             r.find(fn.path, "std-splitter:%s" % bad[0]["name"], "%s delegates line splitting to `%s`, which does not treat a lone "
                    "CR as a line end and is not what the other DiffableStr implementation does" % (fn.name, bad[0].get("src", bad[0]["name"])[:80]),
                    file=fn.file, line=bad[0]["line"])
+    # every tokenizer: only segmenters whose pieces cover the whole input
+    for fn in prog.user_fns():
+        if not (fn.impl and fn.impl.get("trait") == "text::abstraction::DiffableStr" and fn.name.startswith("tokenize_")) \
+                or not fn.hir or not fn.hir.get("body"):
+            continue
+        r.instances += 1
+        bad = [n for n in find_nodes(fn.hir["body"], lambda n: n["k"] == "mcall" and n["name"] in SKIPPING_SEGMENTERS and not n.get("local"))
+               if (n.get("recv_ty") or "").replace("&", "").strip() in ("str", "[u8]", "Self")]
+        bad += [n for n in find_nodes(fn.hir["body"], lambda n: n["k"] == "call" and origin(n["f"]).rsplit("::", 1)[-1] in SKIPPING_SEGMENTERS)]
+        r.ob(not bad, "%s: skipping segmenters used: %s" % (fn.path, [b.get("name") or origin(b["f"]) for b in bad]))
+        if bad:
+            nm = bad[0].get("name") or origin(bad[0]["f"])
+            r.find(fn.path, "skipping-segmenter:%s" % nm.rsplit("::", 1)[-1], "%s takes its tokens from `%s`, which leaves out "
+                   "part of the text (separators / terminators): the tokens no longer concatenate to the input" % (
+                       fn.name, bad[0].get("src", nm)[:80]), file=fn.file, line=bad[0]["line"])
     return r
 
 
@@ -2416,10 +2435,54 @@ def rule_F22(prog):
     return r
 
 
+# ---------------------------------------------------------------- F23: same-tag change blocks of ChangesIter::next
+def rule_F23(prog):
+    r = RuleResult("F23", "ChangesIter::next builds the changes of one tag the same way everywhere: the block that yields a "
+                          "Delete change for a Delete op and the one that yields it for the delete half of a Replace op are "
+                          "identical (same cursor and index advances), likewise for Insert")
+    fns = [f for f in prog.user_fns() if f.name == "next" and f.impl and ty_head(f.impl["self_ty"]) == "iter::ChangesIter"
+           and f.hir and f.hir.get("body")]
+    for fn in fns:
+        blocks = {}
+
+        def visit(n, enclosing):
+            if isinstance(n, dict):
+                enc = enclosing
+                if n.get("k") == "block":
+                    enc = n
+                if n.get("k") == "struct" and n.get("adt") == "types::Change" and enc is not None:
+                    t = tag_of({x["name"]: x["e"] for x in n["fields"]}.get("tag"))
+                    if t:
+                        blocks.setdefault(t, []).append(enc)
+                for k, v in n.items():
+                    if isinstance(v, (dict, list)) and k not in ("res", "tyj", "gargs"):
+                        visit(v, enc)
+            elif isinstance(n, list):
+                for x in n:
+                    visit(x, enclosing)
+        visit(fn.hir["body"], None)
+        for tag, bl in sorted(blocks.items()):
+            if len(bl) < 2:
+                continue
+            r.instances += 1
+            norms = [_norm_loop(b, set()) for b in bl]
+            ok = len(set(norms)) == 1
+            r.ob(ok, "ChangesIter::next: %d blocks yield a %s change; identical: %s" % (len(bl), tag, ok))
+            if not ok:
+                a, b = norms[0], next(x for x in norms if x != norms[0])
+                i = next((i for i, (x, y) in enumerate(zip(a, b)) if x != y), min(len(a), len(b)))
+                other = bl[[x != norms[0] for x in norms].index(True)]
+                r.find(fn.path, "tag-blocks-differ:%s" % tag, "the blocks of ChangesIter::next that yield a %s change differ near "
+                       "`%s` vs `%s`: one of them advances the cursors / indices differently" % (
+                           tag, a[max(0, i - 50):i + 40], b[max(0, i - 50):i + 40]), file=fn.file, line=other.get("line", fn.line))
+    return r
+
+
 # ---------------------------------------------------------------- premises of reviewed exceptions (spec.EXCEPTIONS)
-def premise_delete_arm_suffix_on_empty_range(prog):
+def premise_delete_arm_suffix_on_empty_range(prog, finding=None):
     """In shift_diff_ops_up's (Delete, Equal) arm every common_suffix_len call measures against the new range of the
-    Delete op itself (always empty, so the result is 0 and the `suffix_len != 0` branch is dead)."""
+    Delete op itself (always empty, so the result is 0 and the `suffix_len != 0` branch is dead) -- and the excepted
+    finding sits inside that arm (the same expression in another arm is live code)."""
     found = 0
     for fn in prog.find("algorithms::compact::shift_diff_ops_up"):
         lets = _lets(fn)
@@ -2441,6 +2504,11 @@ def premise_delete_arm_suffix_on_empty_range(prog):
                     if len(c["args"]) != 4 or origin_deep(c["args"][3], lets) != who + ".new_range()":
                         return False
                     found += 1
+                if finding is not None and finding.line:
+                    lines = set()
+                    walk_hir(arm["body"], lambda n: lines.add(n.get("line")) if isinstance(n, dict) and n.get("line") else None)
+                    if finding.line not in lines:
+                        return False
     return found > 0
 
 
